@@ -37,9 +37,12 @@
 
     Part 1 is the sequential state machine, part 2 the history-level specification
     (the property oracle: no caches, only the provenance of entries), part 3 the [cached]
-    decorator as a concurrent system over [lib/Sched.v].
+    decorator as a concurrent system over [lib/Sched.v] (results include Python's
+    [None]; sequential histories are the one-thread case), part 4 the win-size-swap
+    toggles against concurrent [get_cell_size] calls, again over [lib/Sched.v].
 
-    Definitions only; proofs are in [proofs/CachesProofs.v] and [proofs/MemoProofs.v]. *)
+    Definitions only; proofs are in [proofs/CachesProofs.v], [proofs/MemoProofs.v] and
+    [proofs/SwapProofs.v]. *)
 From Coq Require Import List ZArith Bool Arith Lia.
 Import ListNotations.
 From TI Require Import lib.Sched.
